@@ -1346,13 +1346,40 @@ def rule_header(repo):
     nm = _deep(NM.expr, Pv)
     core = nm.args[0] if isinstance(nm, ast.Call) and isinstance(nm.func, ast.Name) and len(nm.args) == 1 and \
         _local_def(nm.func.id, Pv) is not None else nm
-    if not (isinstance(core, ast.Subscript) and isinstance(core.slice, ast.Slice) and core.slice.upper is None and core.slice.step is None
-            and core.slice.lower is not None and norm(core.value) == f'repr({SG})'):
-        raise AnalysisError(f"{R.name}: $var name outside the understood shapes: {norm(nm)}")
-    vals = [Evaluator({mparam: n}, arith=True, funcs={'len': lambda x: x, 'repr': lambda x: x}).ev(core.slice.lower) for n in (2, 7)]
-    r.evaluations += 2
-    _chk(r, vals == [3, 8], m, rq, f"$var name {norm(nm)}", "the variable name must be the signal's path relative to its component "
-         "(repr(signal) minus repr(component) and the dot): otherwise names carry a stray prefix/lose their first letter", Pv)
+    # everything the name is computed from (all bindings of the variables involved, transitively)
+    srcs, todo, seen_n = [nm], [nm], set()
+    while todo:
+        for x in ast.walk(todo.pop()):
+            if isinstance(x, ast.Name) and x.id not in seen_n and x.id not in (SG, mparam):
+                seen_n.add(x.id)
+                for kind, node, val in _bindings(R, x.id):
+                    if kind in ('assign', 'aug') and isinstance(val, ast.AST):
+                        srcs.append(val)
+                        todo.append(val)
+    full = [c for e in srcs for c in ast.walk(e) if
+            (_is_call(c, name='repr', nargs=1) or _is_call(c, name='str', nargs=1)) and norm(c.args[0]) == SG or
+            (isinstance(c, ast.Call) and isinstance(c.func, ast.Attribute) and c.func.attr in ('get_full_name', '__repr__', '__str__')
+             and norm(c.func.value) == SG) or
+            (isinstance(c, ast.FormattedValue) and norm(c.value) == SG)]
+    if not full:
+        used = sorted({c.func.attr for e in srcs for c in ast.walk(e) if isinstance(c, ast.Call) and isinstance(c.func, ast.Attribute)})
+        r.bad(m, rq, f"$var name from {', '.join(used) or norm(nm)}", "the declared name is not computed from the signal's full name: built "
+              "from get_field_name() / the direct parent's name it is not an injective function of the signal within its component scope "
+              "(outer levels of nested interfaces and list indices are lost: s.imem.req.addr and s.dmem.req.addr are both declared "
+              "`req.addr`), so a VCD reader merges or shadows distinct variables", Pv.lineno)
+    else:
+        okname = False
+        if isinstance(core, ast.Subscript) and isinstance(core.slice, ast.Slice) and core.slice.upper is None and core.slice.step is None \
+                and core.slice.lower is not None and norm(core.value) == f'repr({SG})':
+            vals = [Evaluator({mparam: n}, arith=True, funcs={'len': lambda x: x, 'repr': lambda x: x}).ev(core.slice.lower) for n in (2, 7)]
+            r.evaluations += 2
+            okname = vals == [3, 8]
+        elif _is_call(core, attr='removeprefix', nargs=1) and norm(core.func.value) == f'repr({SG})':
+            okname = norm(core.args[0]) in (f"repr({mparam}) + '.'", f"f'{{{mparam}!r}}.'")
+        else:
+            raise AnalysisError(f"{R.name}: $var name uses the full signal name in a shape the rule does not understand: {norm(nm)}")
+        _chk(r, okname, m, rq, f"$var name {norm(nm)}", "the variable name must be the signal's full path with exactly the host "
+             "component's name and the dot cut off: otherwise names carry a stray prefix / lose their first letter", Pv)
     # G. scopes
     Ps, toks_s, holes_s = kinds['$scope'][0]
     Pu, toks_u, holes_u = kinds['$upscope'][0]
@@ -1389,9 +1416,10 @@ def rule_header(repo):
     _chk(r, okK, m, q, f"for {x} in {norm(al.iter) if al else '?'}: {norm(add)} under {[norm(t) for _, t in (cj or [])]}",
          "every top-level signal of the design must be registered under its own host component (no other filter): otherwise it gets no $var", add)
     # L. net table
-    nloops = [s for s in mk.body if isinstance(s, ast.For) and norm(_strip_wrappers(s.iter)) == f'{top}.get_all_value_nets()']
-    if len(nloops) != 1 or not (isinstance(nloops[0].target, ast.Tuple) and len(nloops[0].target.elts) == 2):
-        raise AnalysisError("make_vcd_func: expected one loop `for writer, net in top.get_all_value_nets()`")
+    nloops = [s for s in mk.body if isinstance(s, ast.For) and
+              any(_is_call(n, attr='get_all_value_nets', nargs=0) and norm(n.func.value) == top for n in ast.walk(s.iter))]
+    if len(nloops) != 1:
+        raise AnalysisError("make_vcd_func: expected one loop over top.get_all_value_nets()")
     nl = nloops[0]
     apps = [n for n in ast.walk(nl) if _is_call(n, attr='append', nargs=1) and norm(n.func.value) == nets]
     if len(apps) != 1 or not isinstance(apps[0].args[0], ast.Name):
@@ -1461,10 +1489,18 @@ def rule_header(repo):
                      any(_is_call(_res(x, node), name='repr', nargs=1) for x in (t.left, t.comparators[0]))]
             inside = any(x is node for x in ast.walk(loopnode))
             la = [n for n in ast.walk(loopnode) if _is_call(n, attr='append', nargs=1) and norm(n.func.value) == nets]
-            okO = inside and bool(isclk) and norm(b[2]) == f'len({nets})' and len(la) == 1 and _pos(loopnode, node) < _pos(loopnode, la[0])
-            _chk(r, okO, m, fq, f"{norm(node)} under {[norm(t) for _, t in cj]}", f"the clock index must be len({nets}) taken BEFORE the "
-                 f"net holding s.clk is appended (i.e. that net's index): otherwise the clock edges are printed under a data net's symbol "
-                 f"and that net's own changes are suppressed", node)
+            val = norm(_res(b[2], node))
+            before = len(la) == 1 and _pos(loopnode, node) < _pos(loopnode, la[0])
+            okO = inside and bool(isclk) and len(la) == 1 and \
+                ((val == f'len({nets})' and before) or (val == f'len({nets}) - 1' and not before))
+            why = f"the clock index must be a position in {nets} -- the list the per-cycle table and {syms}[{clkidx}] are indexed with -- " \
+                  f"namely len({nets}) taken BEFORE the net holding s.clk is appended: otherwise the clock edges are printed under a data " \
+                  f"net's symbol and that net is excluded from the per-cycle dump (its changes never appear)"
+            src = _lookup(b[2].id, node)[1] if isinstance(b[2], ast.Name) else []
+            if src and src[0][0] == 'loop':
+                why = (f"`{b[2].id}` counts the iterations of `{norm(src[0][2])[:60]}`, a different index space than {nets} (nets without "
+                       f"top-level signals are not appended to {nets}, so the two positions differ): ") + why
+            _chk(r, okO, m, fq, f"{norm(node)} under {[norm(t) for _, t in cj]}", why, node)
     _chk(r, n_clk >= 1, m, q, f"{n_clk} assignments of the clock index", "the clock net is never identified", mk)
     # J/P. $enddefinitions and initial values
     ends = [s for s in mk.body if isinstance(s, ast.Expr) and isinstance(s.value, ast.Call) and s.value in _prints_to(s, v.fvar)
@@ -2251,6 +2287,12 @@ MUTANTS = [
     _m('new-net-symbol-not-recorded', VCD, "          net_symbol_mapping.append( symbol )\n", "", 'R-C16-header'),
     _m('new-net-fresh-generator', VCD, "          symbol = next(vcd_symbols)\n", "          symbol = next(_gen_vcd_symbol())\n", 'R-C16-header'),
     _m('net-map-off-by-one', VCD, "        signal_net_mapping[x] = i\n", "        signal_net_mapping[x] = i+1\n", 'R-C16-header'),
+    _m2('clock-index-in-other-list', 'R-C16-header',
+        (VCD, "    for writer, net in top.get_all_value_nets():\n      new_net = []", "    for net_idx, (writer, net) in enumerate( top.get_all_value_nets() ):\n      new_net = []"),
+        (VCD, "            vcd_clock_net_idx = len(trimmed_value_nets)\n\n      if new_net:", "            vcd_clock_net_idx = net_idx\n\n      if new_net:")),
+    _m('var-name-from-field-names', VCD, "        signal_name = vcd_mangle_name( repr(signal)[ len(m_name)+1: ] )\n",
+       "        signal_name = signal.get_field_name()\n        parent = signal.get_parent_object()\n        if parent is not m:\n"
+       "          signal_name = f\"{parent.get_field_name()}.{signal_name}\"\n        signal_name = vcd_mangle_name( signal_name )\n", 'R-C16-header'),
     _m('var-name-keeps-dot', VCD, "repr(signal)[ len(m_name)+1: ]", "repr(signal)[ len(m_name): ]", 'R-C16-header'),
     _m('no-upscope', VCD, '      print( f"{spaces}$upscope $end", file=vcd_file )\n', "", 'R-C16-header'),
     _m('clock-index-off-by-one', VCD, "vcd_clock_net_idx = len(trimmed_value_nets)\n\n      if new_net:",
@@ -2349,6 +2391,10 @@ EQUIV = [
        "        if signal in signal_net_mapping:\n          symbol = net_symbol_mapping[ signal_net_mapping[signal] ]\n        if signal not in signal_net_mapping:\n"),
     _m('registration-early-continue', VCD, "      if x.is_top_level_signal():\n        host = x.get_host_component()\n        component_signals[ host ].add( x )\n",
        "      if not x.is_top_level_signal():\n        continue\n      component_signals[ x.get_host_component() ].add( x )\n"),
+    _m('net-loop-by-enumerate', VCD, "    for writer, net in top.get_all_value_nets():\n      new_net = []",
+       "    for net_idx, (writer, net) in enumerate( top.get_all_value_nets() ):\n      new_net = []"),
+    _m('clock-index-helper-local', VCD, "            vcd_clock_net_idx = len(trimmed_value_nets)\n\n      if new_net:",
+       "            pos_of_this_net = len(trimmed_value_nets)\n            vcd_clock_net_idx = pos_of_this_net\n\n      if new_net:"),
     _m('dump-guard-flipped', PREP, "    if top.has_metadata( VcdGenerationPass.vcd_func ):\n      ret.append( top.get_metadata( VcdGenerationPass.vcd_func ) )\n",
        "    if not top.has_metadata( VcdGenerationPass.vcd_func ):\n      pass\n    else:\n      ret.append( top.get_metadata( VcdGenerationPass.vcd_func ) )\n"),
     _m('vcd-str-conditional-expression', BITS,
